@@ -1,7 +1,7 @@
 """C20 - creating a worker returns a usable worker or raises, it never hangs."""
 import ast
 
-from ..astutil import (edge_facts, AnalysisError, dotted, calls_in, last_attr, receiver, norm, is_name, walk_local, is_self_attr,
+from ..astutil import (conjuncts, edge_facts, AnalysisError, dotted, calls_in, last_attr, receiver, norm, is_name, walk_local, is_self_attr,
                        loc, short, parent_map)
 from ..cfg import is_flow, path_str
 from ..lifecycle import worker_classes
@@ -108,6 +108,8 @@ def run(ctx):
                           f'bare-startup-recv:{pipe}',
                           f'{f.short} reads the first message of the freshly spawned process with a bare {last_attr(c)}() ({why}): a child that dies while '
                           'starting never sends it and its creator (constructor / server accept loop) blocks forever', where=loc(f, c))
+                if ok and f.name == '_start':
+                    check_startup_report_consumed(ctx, 'R2', cls, f, g, c, pipe)
             if last_attr(c) == 'accept' and f.name == '__setstate__':
                 n_recv += 1
                 rn = [n for n in g.nodes if n.stmt is not None and n.part == 'eval' and any(x is c for x in n.calls())]
@@ -175,6 +177,52 @@ def run(ctx):
     ctx.stats.update({'wait_set_pairs': n_pairs, 'startup_receive_sites': n_recv})
 
 
+def check_startup_report_consumed(ctx, rule, cls, f, g, c, pipe):
+    """(shared by C20.R2 and C01.R3)"""
+    # the start-up report travels on the pipe that later carries the outcome: _start may only return normally once the report has been
+    # read or the child is known to be gone - a wait that can end with neither (a timeout) and carries on leaves the report in the pipe,
+    # where the outcome reader takes it for the final message
+    wvars = {}
+    for st in walk_local(f.node):
+        if isinstance(st, ast.Assign) and isinstance(st.value, ast.Call) and (dotted(st.value.func) or '').endswith('connection.wait') and \
+                isinstance(st.targets[0], ast.Name) and st.value.args and isinstance(st.value.args[0], ast.List):
+            t = st.value.args[1] if len(st.value.args) > 1 else next((k.value for k in st.value.keywords if k.arg == 'timeout'), None)
+            timed = t is not None and not (isinstance(t, ast.Constant) and t.value is None)
+            wvars[st.targets[0].id] = (timed, [norm(e) for e in st.value.args[0].elts])
+    wnodes = [n for n in g.nodes if n.stmt is not None and n.part == 'post' and isinstance(n.stmt, ast.Assign) and isinstance(n.stmt.value, ast.Call)
+              and (dotted(n.stmt.value.func) or '').endswith('connection.wait')]
+    read_ids = {n.id for n in g.nodes if n.stmt is not None and n.part == 'post' and any(last_attr(x) in ('recv', 'get') and receiver(x) == pipe for x in n.calls())}
+
+    def gone_fact(facts):
+        for txt, truth in facts:
+            if ' in ' not in txt:
+                continue
+            e, v = txt.rsplit(' in ', 1)
+            if v not in wvars:
+                continue
+            timed, elts = wvars[v]
+            if truth and e.endswith('.sentinel'):
+                return True
+            # an untimed wait returns a non-empty list: with two objects waited for, "the pipe is not ready" means the sentinel is
+            if not truth and not timed and len(elts) == 2 and e == pipe and any(x.endswith('.sentinel') for x in elts):
+                return True
+        return False
+    gone_ids = {n.id for n in g.nodes if isinstance(n.stmt, ast.Assert) and gone_fact(conjuncts(n.stmt.test, True))}
+
+    def flow(e):
+        if e.kind in ('async', 'exc', 'reraise'):
+            return False
+        if e.kind in ('true', 'false') and gone_fact(edge_facts(e)):
+            return False
+        return True
+    p = g.find_path(wnodes, lambda n: n is g.exit or n.kind == 'return', edge_ok=flow, node_ok=lambda n: n.id not in read_ids and n.id not in gone_ids) if wnodes else None
+    ctx.check(rule, f'{f.short}: returns only once the start-up report has been read or the child is known to be gone', p is None and bool(wnodes), f.short,
+              f'startup-report-left-in-the-pipe:{pipe}',
+              f'{f.short} can return normally although neither the start-up report was read from {pipe} nor the child\'s sentinel was ready (the wait ended '
+              'with neither, e.g. by a timeout): the report arrives later on the pipe that carries the outcome, and the outcome reader unpacks it as the final '
+              'message - has_error / result / error raise for ever after the child dies without one', where=loc(f, c), path=path_str(p or []))
+
+
 def guarded_by_wait(g, dom, f, recv_nodes, pipe, other_suffix):
     """recv_nodes are dominated by the `pipe in ready` side of a test on the result of connection.wait([pipe, <...other_suffix>])"""
     waits = []
@@ -182,7 +230,7 @@ def guarded_by_wait(g, dom, f, recv_nodes, pipe, other_suffix):
         if isinstance(st, ast.Assign) and isinstance(st.value, ast.Call) and (dotted(st.value.func) or '').endswith('connection.wait') \
                 and st.value.args and isinstance(st.value.args[0], ast.List) and isinstance(st.targets[0], ast.Name):
             elts = [norm(e) for e in st.value.args[0].elts]
-            if pipe in elts and any(e.endswith(other_suffix) for e in elts) and not st.value.args[1:] and not st.value.keywords:
+            if pipe in elts and any(e.endswith(other_suffix) for e in elts):
                 waits.append((st.targets[0].id, st))
     if not waits:
         return False, 'no connection.wait([...]) on the pipe together with ' + other_suffix.strip('._')
@@ -274,3 +322,21 @@ def check_child_side_reads(ctx):
                           'sees EOF - the child is left behind for ever and, as it also holds copies of the sockets, the client\'s constructor never gets an answer either', where=loc(f, call))
     ctx.floor('blocking child-side reads of a pipe end', n, 2)
 
+
+
+def startup_report_sites(ctx):
+    """(cls, _start function, cfg, receive call, pipe) of the sentinel-guarded start-up receives of the process kinds - for C01.R3"""
+    P = ctx.prog
+    PW = P.cls('ProcessWorker')
+    out = []
+    for cls in [PW] + [c for c in P.subclasses(PW) if '_start' in c.methods]:
+        f = cls.methods['_start']
+        g = ctx.an.cfg(f, cls)
+        dom = g.dominators(edge_ok=lambda e: e.kind != 'async')
+        for c in calls_in(f.node):
+            r = receiver(c) or ''
+            if last_attr(c) in ('recv', 'get') and r.startswith('self.') and r.endswith('.parent_end') and not c.args:
+                rn = [n for n in g.nodes if n.stmt is not None and n.part == 'eval' and any(x is c for x in n.calls())]
+                if guarded_by_wait(g, dom, f, rn, r, '.sentinel')[0]:
+                    out.append((cls, f, g, c, r))
+    return out
